@@ -606,7 +606,7 @@ func poolCase(t *testing.T, idx int64, r *rand.Rand) {
 }
 
 func TestCheck(t *testing.T) {
-	rt.Cases(640, 320000, func(idx int64) {
+	rt.Cases(1920, 320000, func(idx int64) {
 		r := rt.CaseRand(2, idx)
 		rt.Case()
 		switch m := idx % 32; {
